@@ -22,6 +22,8 @@ extra = {"F1_runconfig_release": ["C10"], "F2_F8_stream_pump": ["C12", "C18", "C
          "F5_collect_clock": ["C17", "C18"], "F6_timedcopy_bound": ["C18"], "F7_replay_capacity": ["C19", "C07"]}
 for n, props in extra.items():
     for p in props: jobs.append(("/verif/mutants/findings/%s.patch" % n, p, None))
+flt = sys.argv[1:]
+if flt: jobs = [j for j in jobs if any(f in j[0] or f == j[1] for f in flt)]
 res = []
 with cf.ThreadPoolExecutor(8) as ex:
     futs = {ex.submit(run, j[0], j[1]): j for j in jobs}
